@@ -10,7 +10,8 @@ RULE = ("records = Grid(ds) without explicit coords for datasets annotated per C
         "containing center, n 1..4, both shift signs on inner/outer, arbitrary dimension names and order) or per SGRID "
         "(1-D, 2-D, 2-D+vertical, 3-D, the four padding words, with/without a space after ':'), datasets carrying both "
         "annotations, user coords together with parsable metadata; each parsed grid also runs one operator whose result "
-        "is validated against the geometric definition; non-trivial = distinct dataset descriptions")
+        "is validated against the geometric definition; non-trivial = distinct dataset descriptions"
+        ' Also: per-colon spacing, entries in any order, the topology variable as a coordinate, non-dimension coordinates carrying COMODO attributes, the shift attribute as float / numpy scalar / text.')
 
 PAD = {"left": "high", "right": "low", "inner": "both", "outer": "none"}
 
